@@ -334,6 +334,25 @@ Qed.
 Example C05_code_ok_nonvacuous : Nat.leb (qpeak ex_segs) 2 = true.
 Proof. vm_compute. reflexivity. Qed.
 
+(* an array entry addressed through an index that is itself an array entry (Future-indexed Future):
+   add of a constant, add of another entry, measurement into it; direct evaluation and the run of the
+   lowered, flattened code agree on the data array (30 + 5 + 10, then overwritten by the outcome 1).
+   These two constructors are outside `wfs`: correspondence and oracle cover them, not the composed theorem *)
+Definition ex_nested : block :=
+  blk [SNewArray 0 3 (Some [Some 10%Z; Some 20%Z; Some 30%Z]); SNewArray 1 1 (Some [Some 2%Z]);
+       SFutAddX 0 1 0 (AInt 5) None; SFutAddX 0 1 0 (AFut 0 (IxC 0)) None;
+       SNewQubit 0; SGate GX 0; SMeasFutX 0 false 0 1 0; SFlush].
+
+Example C05_nested_future_index_nonvacuous :
+  (match eval_prog ex_nested [1%Z] with Some e => alookup 0%nat (e_arr e) | None => None end)
+    = Some [Some 10%Z; Some 20%Z; Some 1%Z] /\
+  (match lower_prog true ex_nested with
+   | Ok (bs, _) => match run_blocks 200 bs (m0 [1%Z]) with RDone s => m_arr s 0%nat | _ => None end
+   | Err _ => None
+   end) = Some [Some 10%Z; Some 20%Z; Some 1%Z] /\
+  bwfs ex_nested = false.
+Proof. vm_compute. repeat split; reflexivity. Qed.
+
 Print Assumptions C05_flatten_correct.
 Print Assumptions C05_negated_branch.
 Print Assumptions C05_lower_if.
